@@ -5198,7 +5198,14 @@ class DfaCompileCtx:
         Convert the AST into a (potentially optimized) DFA.
         """
 
-        self.dfa = self.ast.convert(defaultdict(lambda: self.generic_fail_state))
+        if self.ast is None:
+            # the parser consists of actions only (they all run in _start): nothing to match, the parse is complete at once
+            self.dfa = DFA()
+            finished = DFState()
+            self.dfa.add(finished)
+            self.dfa.mark_accepting(finished)
+        else:
+            self.dfa = self.ast.convert(defaultdict(lambda: self.generic_fail_state))
         self.dfa.add(self.generic_fail_state)
 
         while self._optimize_remove_inaccessible() + self._optimize_simplify_transition_matches() + self._optimize_shortcircuit_fallthroughs():
